@@ -4,7 +4,7 @@ import ast, sys, os, hashlib, importlib.abc, importlib.machinery
 from . import hooks
 
 sys.dont_write_bytecode = True
-REPO = os.environ.get("YOWSUP_REPO", "/repo")
+REPO = (os.environ.get("YOWSUP_REPO") or "/repo")
 LOADED = {}      # module name -> (path, sha256 of source)
 _NOHOOK_NAMES = {"super", "locals", "globals", "vars", "dir", "eval", "exec", "__import__"}
 
